@@ -186,6 +186,31 @@ def run_contracts(col, cls, p, g, tag):
     if cls != "HyperbolicRTransform":
         col.check(f"{cls}:inverse-derivs", inverse_derivs, inputs=inp)
 
+    def near_ends():
+        """Interior points close to the (possibly infinite) ends: still finite, strictly monotone, and inverted by `inverse`."""
+        lo, hi = tf.domain
+        if cls not in ("BeckeRTransform", "KnowlesRTransform", "HandyRTransform", "MultiExpRTransform"):
+            return True, None
+        ks = np.array([8.0, 13.0, 20.0, 27.0, 33.0, 40.0])
+        # only the end that is mapped to infinity: rounding makes the map flat next to the finite end
+        for pts in ((lo + (hi - lo) * 2.0 ** -ks[::-1],) if cls == "MultiExpRTransform" else (hi - (hi - lo) * 2.0 ** -ks,)):
+            pts = np.sort(pts)
+            with np.errstate(all="ignore"):
+                rr = np.asarray(tf.transform(pts), dtype=float)
+            if not np.all(np.isfinite(rr)):
+                return False, f"non-finite value at an interior point near the end: {pts[~np.isfinite(rr)][0]!r}"
+            sgn = -1 if cls == "MultiExpRTransform" else 1
+            if not np.all(sgn * np.diff(rr) > 0):
+                i = int(np.argmin(sgn * np.diff(rr)))
+                return False, f"not strictly monotone near the end: transform({pts[i]!r}) = {rr[i]!r}, transform({pts[i+1]!r}) = {rr[i+1]!r}"
+            back = np.asarray(tf.inverse(rr), dtype=float)
+            err = np.abs(back - pts) / np.maximum(np.minimum(np.abs(pts - lo), np.abs(hi - pts)), 1e-300)
+            if np.any(err > 1e-3):
+                i = int(np.argmax(err))
+                return False, f"inverse(transform({pts[i]!r})) = {back[i]!r}"
+        return True, None
+    col.check(f"{cls}:near-ends", near_ends, inputs=inp)
+
     def scalar_vs_array():
         if cls == "HyperbolicRTransform":
             return True, None
